@@ -20,7 +20,7 @@ ASSUMPTIONS = ['summary mode: Exp(Log R) = R, Exp(-Log R) = R^T for orthonormal 
                '(the contracts proved for the real code by C01 on the same tree)',
                'scipy Rotation: as_matrix = documented R(q/|q|); from_matrix(M).as_quat() = some unit q with R(q) = M']
 EXPLORER_DEFAULTS = {'quick': dict(prove_timeout_ms=30000, time_budget_s=600, max_paths=300),
-                     'thorough': dict(prove_timeout_ms=120000, time_budget_s=2400, max_paths=2000)}
+                     'thorough': dict(prove_timeout_ms=120000, time_budget_s=1200, max_paths=2000)}
 TOL = '5e-6'
 
 
